@@ -291,6 +291,130 @@ def check_C02(tier, seed):
 
 
 # ---------------------------------------------------------------------------
+# Transformation laws (NlXform): C09 and C10
+# ---------------------------------------------------------------------------
+def rel_leg(o, name, xset, n, seed, timeout=1500):
+    t0 = time.time()
+    shards = max(1, min(core.NCPU, n // 100))
+    wd = core.workdir(f"{o.prop}_{name}")
+    per = (n + shards - 1) // shards
+
+    def gen(i):
+        f = os.path.join(wd, f"rel{i}.ndjson")
+        core.run_nlh(["gen-rel", "--set", xset, "--seed", seed * 1021 + i, "--n", per,
+                      "--first-id", i * 1000000 + 1, "--out", f])
+        return f
+    files = core.parallel(gen, list(range(shards)))
+    results = run_tv_shards(files, "TV_Rel.tla", "TV_Rel.cfg", wd, timeout=timeout)
+    counts = {}
+    agreeing = []
+    nrec = 0
+    for f, r in zip(files, results):
+        o.add_tlc(r)
+        recs = {x["id"]: x for x in core.read_ndjson(f)}
+        nrec += len(recs)
+        if len(r.verdicts) != len(recs):
+            raise ToolError(f"{name}: {len(r.verdicts)} verdicts for {len(recs)} records")
+        for v in r.verdicts:
+            key = v["class"] + ":" + v["rule"]
+            counts[key] = counts.get(key, 0) + 1
+            rec = recs[v["id"]]
+            if v["class"] == "mismatch":
+                b, va = rec["base"], rec["var"]
+                sig = {"leg": name, "rule": "law:" + v["rule"], "class": va.get("class"), "kind": va.get("kind"),
+                       "msg": va.get("msg") or va.get("site"), "loc": va.get("loc"),
+                       "base_class": b.get("class"), "text": rec["var_text"]}
+                o.violation(sig, {"transformation": v["rule"], "base_text": rec["base_text"], "var_text": rec["var_text"],
+                                  "base_obs": {k: b[k] for k in b if k != "out"}, "var_obs": {k: va[k] for k in va if k != "out"},
+                                  "base_out": core.text_of(b.get("out", [])), "var_out": core.text_of(va.get("out", [])),
+                                  "record_file": f, "id": v["id"], "spec_module": "TV_Rel.tla", "cfg": "TV_Rel.cfg"})
+            elif v["class"] == "agree":
+                agreeing.append(rec)
+                if len(o.samples) < 4 and len(rec["base_text"]) < 300:
+                    o.samples.append({"leg": name, "transformation": v["rule"], "program": rec["base_text"], "image": rec["var_text"]})
+            if v["class"] != "skip":
+                o.traces += 1
+    # sensitivity: a pair whose observations differ must break the law
+    tried = rejected = 0
+    if agreeing:
+        rng = random.Random(seed)
+        bad = []
+        for r in rng.sample(agreeing, min(12, len(agreeing))):
+            c = copy.deepcopy(r)
+            if c["kind"] == "undeclare":
+                c["var"] = {"class": "Value", "val": {"t": "N"}, "out": []}
+            else:
+                c["var"]["out"] = c["var"]["out"] + [33]
+            bad.append(c)
+        bf = os.path.join(wd, "corrupt.ndjson")
+        core.write_ndjson(bf, bad)
+        rr = core.tlc_or_die("TV_Rel.tla", "TV_Rel.cfg", env={"RECS": bf}, workdir_=wd)
+        tried = len(bad)
+        rejected = sum(1 for v in rr.verdicts if v["class"] == "mismatch")
+        if tried != rejected:
+            raise ToolError(f"{name}: sensitivity self-test failed ({rejected}/{tried})")
+    o.legs.append({"leg": name, "pairs": nrec, "verdicts": counts, "sensitivity_tried": tried,
+                   "sensitivity_rejected": rejected, "wall_s": round(time.time() - t0, 1)})
+    # every program of every pair is also validated against the reference semantics
+    sems = [f + ".sem" for f in files]
+    sem_files_leg(o, name + "-abs", sems, wd)
+
+
+def sem_files_leg(o, name, files, wd, spec="TV_Sem.tla", cfg="TV_Sem.cfg", timeout=1500):
+    t0 = time.time()
+    results = run_tv_shards(files, spec, cfg, wd, timeout=timeout)
+    counts = {}
+    nrec = 0
+    for f, r in zip(files, results):
+        o.add_tlc(r)
+        recs = {x["id"]: x for x in core.read_ndjson(f)}
+        srcs = {x["id"]: x["text"] for x in core.read_ndjson(f + ".src")} if os.path.exists(f + ".src") else {}
+        nrec += len(recs)
+        if len(r.verdicts) != len(recs):
+            raise ToolError(f"{name}: {len(r.verdicts)} verdicts for {len(recs)} records in {f}")
+        for v in r.verdicts:
+            key = v["class"] + ":" + v["rule"]
+            counts[key] = counts.get(key, 0) + 1
+            if v["class"] == "mismatch":
+                rec = recs[v["id"]]
+                text = srcs.get(v["id"], "")
+                o.violation(sig_of(name, v, rec, text),
+                            {"text": text, "obs": rec.get("obs"), "spec": v.get("spec"),
+                             "spec_out": core.text_of(v.get("out", [])), "record_file": f, "id": v["id"],
+                             "spec_module": spec, "cfg": cfg})
+            if v["class"] != "skip":
+                o.traces += 1
+    o.legs.append({"leg": name, "records": nrec, "verdicts": counts, "wall_s": round(time.time() - t0, 1)})
+
+
+def check_C09(tier, seed):
+    o = Outcome("C09", tier, seed, "model_checking")
+    o.assumptions = [
+        "lexical resolution as stated in spec/NlStatic.tla (own function's open scopes innermost first, then the program's open scopes; later same-scope declaration wins; no closures)",
+        "transformation laws of spec/NlXform.tla; the transformations themselves are applied by the harness (harness/src/xform.rs) to the generated tree",
+    ]
+    n = size(tier, 2400, 60000)
+    sem_leg(o, "names", ["--family", "names"], n, seed)
+    rel_leg(o, "laws", "names", n // 2, seed)
+    o.extra["rule"] = ("programs with a small identifier pool (the same name reused across blocks, functions and nesting levels), "
+                       "shadowing, same-scope re-declaration and deliberately stray identifiers; each validated against NlStatic+NlSem, "
+                       "and under renaming / unused shadowing declaration / undeclared name against the laws of NlXform")
+    return o.finish()
+
+
+def check_C10(tier, seed):
+    o = Outcome("C10", tier, seed, "model_checking")
+    o.assumptions = [
+        "transformation laws of spec/NlXform.tla (wrap in function, literal -> variable, mirrored operands, prepended literals); side conditions: wrapped programs define no functions, mirrored operands are a literal and a name",
+        "the verdict of the law legs involves no reference interpreter: two runs of the real eval are compared",
+    ]
+    n = size(tier, 2400, 60000)
+    rel_leg(o, "laws", "impl", n, seed)
+    o.extra["rule"] = "closed generated programs paired with their images under the four implementation-choice transformations"
+    return o.finish()
+
+
+# ---------------------------------------------------------------------------
 # C06: operators, exact over the whole range
 # ---------------------------------------------------------------------------
 def corrupt_big(rec, k):
@@ -388,6 +512,8 @@ def check_C06(tier, seed):
 CHECKS = {
     "C01": check_C01,
     "C06": check_C06,
+    "C09": check_C09,
+    "C10": check_C10,
     "C02": check_C02,
 }
 
